@@ -84,7 +84,9 @@ CLASSES.update({
     '_min_size': 'int', '_max_size': 'int', '_max_queue_size': 'int', '_current_size': 'int', '_state': 'int',
     'endpoint': 'any',
     # ghost: the connections currently lent to a request
-    'g_lent': 'set[any]'}, ghost=['g_lent']),
+    'g_lent': 'set[any]',
+    # ghost: how many queue-processing greenlets a release has started
+    'g_pq': 'int'}, ghost=['g_lent', 'g_pq']),
   'QueuingMessageSink': dict(file='scales/pool/watermark.py', path='QueuingMessageSink', bases=['Channel'],
                              fields={'_queue': 'deque[tuple[ClientMessageSinkStack,Message,any,any]]'}),
   'MaxWaitersError': dict(file='scales/pool/watermark.py', path='MaxWaitersError', bases=[], fields={}),
@@ -218,15 +220,20 @@ FUNCTIONS.update({
       # the connection is handed on (still lent), cached, or closed and un-counted -- never lost
       'implies(old(is_real_sink(sink)) and not (sink in self.g_lent), '
       '        exists(k, 0, len(self._cache), self._cache[k] == sink) or sink.g_closes == old(sink.g_closes) + 1 or self._state == ChannelState.Closed or old(self._state) == ChannelState.Closed)',
+      # somebody is waiting: the released connection goes straight to the queue (it stays lent, is neither cached nor
+      # closed), whatever the state of the waiter at the head -- completed waiters are skipped by _ProcessQueue, not here
+      'implies(old(is_real_sink(sink)) and old(self._state) != ChannelState.Closed and old(sink.state) != ChannelState.Closed and old(len(self._waiters)) > 0, '
+      '        (sink in self.g_lent) and self.g_pq == old(self.g_pq) + 1 and len(self._cache) == old(len(self._cache)) and sink.g_closes == old(sink.g_closes))',
       # retained connections: cached only at or below the low watermark
       'implies(len(self._cache) > old(len(self._cache)), self._current_size <= self._min_size)',
     ],
-    modifies=['Observable.g_nsubs', 'deque[Channel]', 'WatermarkPoolSink._current_size', 'WatermarkPoolSink._state', 'set[any]',
+    modifies=['WatermarkPoolSink.g_pq', 'Observable.g_nsubs', 'deque[Channel]', 'WatermarkPoolSink._current_size', 'WatermarkPoolSink._state', 'set[any]',
               'Channel.state', 'Channel.g_closes', 'deque[tuple[AnySink,any]]', 'AnySink.g_invoked',
               'MethodReturnMessage.error', 'MethodReturnMessage.return_value', 'MethodReturnMessage.stack',
               'FailingMessageSink._ex', 'ClientMessageSink._on_faulted', 'MessageSink._next', '$cls'],
     allocates='any',
     ghost=[
+      {'after': 'gevent.spawn(self._ProcessQueue, sink)', 'do': ['self.g_pq = self.g_pq + 1']},
       {'after': 'self._current_size -= 1', 'do': ['self.g_lent.discard(sink)']},
       {'before': 'self._cache.append(sink)', 'do': ['self.g_lent.discard(sink)']},
     ],
